@@ -123,22 +123,24 @@ def dispatch (f : String) (j : Json) : Option Json :=
         return Json.arr #[ofNat r.1.ln, ofNat r.1.col, ofNat r.1.endLn, ofNat r.1.endCol, ofInt r.2]
       | _ => return bad
   | "C06.find" => some <| Id.run do
-      -- nodes: [[id, ln, col, end_ln, end_col, depth], ...]; queries: [[ln, col, end_ln, end_col], ...]
+      -- nodes: [[id, ln, col, end_ln, end_col, depth], ...]; decos: ids of decorator roots; queries: [[ln, col, end_ln, end_col], ...]
       let some nodes := (getArr j "nodes").bind (fun a => a.toList.mapM parseFNode) | return bad
       let some qs := (getArr j "queries").bind (fun a => a.toList.mapM asNats) | return bad
+      let decos := ((get j "decos").bind asNats).getD []
       let idJ (o : Option FNode) : Json := optNatJson (o.map (·.id))
       let one (q : List Nat) : Json :=
         match q with
         | [a, b, c, d] =>
           let q : Loc := ⟨a, b, c, d⟩
           Json.arr #[
-            idJ (findLoc nodes q false), idJ (findLoc nodes q true),
-            idJ ((findContains nodes q .yes).map (·.1)), idJ ((findContains nodes q .no).map (·.1)),
-            idJ ((findContains nodes q .top).map (·.1)), idJ (findIn nodes q),
+            idJ (findLoc decos nodes q false), idJ (findLoc decos nodes q true),
+            idJ ((findContainsD decos nodes q .yes).map (·.1)), idJ ((findContainsD decos nodes q .no).map (·.1)),
+            idJ ((findContainsD decos nodes q .top).map (·.1)), idJ (findIn nodes q),
             idJ (bruteContains nodes q .yes), idJ (bruteContains nodes q .no), idJ (bruteContains nodes q .top),
             idJ (bruteIn nodes q)]
         | _ => bad
-      return Json.mkObj [("wf", Json.bool (wfList nodes)), ("r", Json.arr (qs.map one).toArray)]
+      return Json.mkObj [("wf", Json.bool (wfList nodes)), ("wfd", Json.bool (wfListD decos nodes)),
+                         ("r", Json.arr (qs.map one).toArray)]
   | _ => none
 
 end Pfst.Drv.C06
